@@ -104,12 +104,13 @@ Proof. intros; split; [apply minv_reach|apply qinv_reach]. Qed.
       Loop thread: execute_new_loop(signal 1); close_loop().  Submitter: enqueue_signal(signal 2, source
       registered nowhere).  Schedule: the loop thread opens the level (20 accesses); the submitter passes the
       locked routing loop without a match and loads _active_queue = queue 1 for the fallback (14 accesses);
-      the loop thread runs close_loop completely (drain, lock, pop, re-point, unlock: 7 accesses); the
+      the loop thread runs close_loop completely (drain, lock, pop, re-point, unlock: 7 accesses) and its handler
+      returns (1 step); the
       submitter puts signal 2 into queue object 1, which is no longer in _event_queues. *)
 Definition f10_progs : list (list action) :=
   [ [AOpen {| s_id := 1; s_prio := 0; s_src := None |}; AClose];
     [ASubmit {| s_id := 2; s_prio := 0; s_src := None |}] ].
-Definition f10_sched : list nat := repeat 0 20 ++ repeat 1 14 ++ repeat 0 7 ++ repeat 1 3.
+Definition f10_sched : list nat := repeat 0 20 ++ repeat 1 14 ++ repeat 0 8 ++ repeat 1 3.
 
 Example C19_lost_at_close_refuted :
   let st := steps f10_sched (init f10_progs) in
@@ -124,8 +125,38 @@ Proof. vm_compute. repeat split. Qed.
 (* the variant with the fallback's put landing between close_loop's drain and its pop (moving the fallback
    under the lock would not cure it) *)
 Example C19_lost_between_drain_and_pop :
-  let st := steps (repeat 0 20 ++ repeat 1 14 ++ repeat 0 3 ++ repeat 1 3 ++ repeat 0 5) (init f10_progs) in
+  let st := steps (repeat 0 20 ++ repeat 1 14 ++ repeat 0 3 ++ repeat 1 3 ++ repeat 0 6) (init f10_progs) in
   forallb finished (c_thr st) = true /\ h_disp (c_sh st) = [1] /\ pending_dead st = [2].
+Proof. vm_compute. repeat split. Qed.
+
+(* 7. the gap after close_loop: close_loop() ends with `_run_loop = False`; the flag stays False while the
+      handler that closed the level is still running ([PCRet]; every other thread is schedulable meanwhile) and is
+      re-armed when the handler returns.  The submission path never reads the flag: a step of enqueue_signal
+      is the same whatever the flag is, and leaves it alone — so a submission falling into the gap is routed and
+      put exactly as at any other time (all theorems above quantify over schedules that put submissions there) *)
+Theorem C19_submission_ignores_run_loop : forall t s e h b,
+  estep t s e (with_run b h) =
+  match estep t s e h with None => None | Some (e', h') => Some (e', with_run b h') end.
+Proof. exact estep_ignores_run. Qed.
+
+Theorem C19_submitter_ignores_run_loop : forall t th h b, submit_thread th = true ->
+  tstep t th (with_run b h) =
+  match tstep t th h with None => None | Some (th', h') => Some (th', with_run b h') end.
+Proof. exact submit_ignores_run. Qed.
+
+(*    non-vacuity of the gap: root source 5 registered at level 0, nested level opened and closed; the submitter
+      runs its whole submission while the loop thread sits between close_loop() and the handler's return
+      (_run_loop = False): the signal is put into the root queue and dispatched once the loop thread goes on *)
+Definition gap_progs : list (list action) :=
+  [ [ARegister 5; AOpen {| s_id := 1; s_prio := 0; s_src := None |}; AClose; ADispatch];
+    [ASubmit {| s_id := 2; s_prio := 0; s_src := Some 5 |}] ].
+Example C19_gap_example :
+  let mid := steps (repeat 0 30) (init gap_progs) in
+  let aft := steps (repeat 1 10) mid in
+  let fin := steps [0; 0] aft in
+  option_map t_pc (nth_error (c_thr mid) 0) = Some PCRet /\ h_run (c_sh mid) = false /\
+  h_run (c_sh aft) = false /\ h_pend (c_sh aft) = [(0, (0%Z, 0, 2))] /\ h_drop (c_sh aft) = [] /\
+  h_run (c_sh fin) = true /\ h_disp (c_sh fin) = [1; 2] /\ forallb finished (c_thr fin) = true.
 Proof. vm_compute. repeat split. Qed.
 
 (* non-vacuity: two submitters x two signals (equal priorities; thread 1's source 7 is registered at the
@@ -167,3 +198,5 @@ Print Assumptions C19_routing.
 Print Assumptions C19_no_deadlock.
 Print Assumptions C19_no_deadlock_loop.
 Print Assumptions C19_lock_holders.
+Print Assumptions C19_submission_ignores_run_loop.
+Print Assumptions C19_submitter_ignores_run_loop.
